@@ -2,7 +2,7 @@
 import re
 
 class Func:
-    __slots__ = ("name", "rawname", "nargs", "locals", "blocks", "ret", "argtypes", "kind", "src")
+    __slots__ = ("name", "rawname", "nargs", "locals", "blocks", "ret", "argtypes", "kind", "src", "crate")
     def __init__(self):
         self.locals = {}
         self.blocks = {}
